@@ -329,7 +329,7 @@ func qeMain(args []string) int {
 		}
 	}
 	runModule := "QE.Run"
-	if (prof.bothModes && !prof.roundtrip) || prof.name == "c06" {
+	if (prof.bothModes && !prof.roundtrip) || prof.name == "c06" || prof.name == "c01" {
 		// adds the cross-mode comparison of the model's answers and the internal observables
 		// (index pre-selection in store order: the precondition of C06's per-backend cut-off)
 		runModule = "C07.Run"
